@@ -160,7 +160,7 @@ namespace nmtools::view
         template <typename array_t, typename split_args_t, template<auto...>typename index_sequence, auto...Is>
         constexpr auto split(const array_t& array, const split_args_t& split_args, index_sequence<Is...>)
         {
-            return nmtools_tuple{apply_slice(array,nmtools::get<Is>(split_args))...};
+            return nmtools_tuple{view::apply_slice(array,nmtools::get<Is>(split_args))...};
         }
     } // namespace detail
     
@@ -184,7 +184,7 @@ namespace nmtools::view
         using split_args_t = decltype(split_args);
         if constexpr (meta::is_list_v<split_args_t>) {
             using value_type = meta::get_value_type_t<split_args_t>;
-            using split_t    = decltype(apply_slice(array, meta::declval<value_type>()));
+            using split_t    = decltype(view::apply_slice(array, meta::declval<value_type>()));
             using result_t   = meta::replace_value_type_t<split_args_t,split_t>;
             auto res = result_t {};
             auto n = len(split_args);
@@ -194,7 +194,7 @@ namespace nmtools::view
             // res.resize(n);
             for (size_t i=0; i<n; i++) {
                 // TODO: use emplace_back
-                res.push_back(apply_slice(array,at(split_args,i)));
+                res.push_back(view::apply_slice(array,at(split_args,i)));
                 // at(res,i) = apply_slice(array, at(split_args,i));
             }
             return res;
